@@ -155,6 +155,8 @@ func (p *wProc) launch() {
 	go func() {
 		vDaemon()
 		vSetProc(p.id)
+		mOrigStdoutOf[os.Stdout] = true // this process's real stdout, before anybody redirects os.Stdout
+		mRealStdoutHook = wWriteRealStdout
 		p.main()
 		p.exit(0)
 	}()
@@ -197,8 +199,11 @@ func (p *wProc) die() {
 type wPipe struct {
 	ch     chan string
 	wclose bool
+	rclose bool // the read end was closed: what was still unread is lost
 	taken  int
 }
+
+func (p *wPipe) closeRead() { p.rclose = true }
 
 func newWPipe() *wPipe { return &wPipe{ch: make(chan string, 16)} }
 
@@ -218,7 +223,13 @@ func (p *wPipe) Close() error               { return nil }
 
 // read blocks like a pipe read: the next item, or ok=false at EOF
 func (p *wPipe) read() (string, bool) {
+	if p.rclose {
+		return "", false
+	}
 	s, ok := <-p.ch
+	if p.rclose {
+		return "", false
+	}
 	if ok {
 		p.taken++
 	}
@@ -273,6 +284,19 @@ func mErr(s *bufio.Scanner) error { return wScanG[s].err }
 
 var wReaderG = map[*bufio.Reader]*wPipe{}
 
+// io.TeeReader: what is read from r is also written to w
+type wTee struct {
+	r io.Reader
+	w io.Writer
+}
+
+func (t *wTee) Read(p []byte) (int, error) { return 0, errors.New("raw Read of a modelled tee reader") }
+
+//verif:model io.TeeReader
+func mTeeReader(r io.Reader, w io.Writer) io.Reader { return &wTee{r, w} }
+
+var wTeeOf = map[*bufio.Reader]io.Writer{}
+
 //verif:model bufio.NewReaderSize
 func mNewReaderSize(r io.Reader, n int) *bufio.Reader {
 	b := new(bufio.Reader)
@@ -283,6 +307,10 @@ func mNewReaderSize(r io.Reader, n int) *bufio.Reader {
 //verif:model bufio.NewReader
 func mNewReader(r io.Reader) *bufio.Reader {
 	b := new(bufio.Reader)
+	if t, ok := r.(*wTee); ok {
+		wTeeOf[b] = t.w
+		r = t.r
+	}
 	if p, ok := r.(*wPipe); ok {
 		wReaderG[b] = p
 	} else if f, ok := r.(*os.File); ok {
@@ -314,6 +342,9 @@ func mBufRead(b *bufio.Reader, p []byte) (int, error) {
 	chunk, ok := pipe.read()
 	if !ok {
 		return 0, io.EOF
+	}
+	if w := wTeeOf[b]; w != nil {
+		w.Write([]byte(chunk))
 	}
 	return vFillBytes(p, chunk), nil
 }
@@ -357,6 +388,12 @@ func mBytesNewReader(b []byte) *bytes.Reader {
 
 func wReadChunk(src io.Reader) (string, bool) {
 	switch r := src.(type) {
+	case *wTee:
+		chunk, ok := wReadChunk(r.r)
+		if ok {
+			r.w.Write([]byte(chunk))
+		}
+		return chunk, ok
 	case *bytes.Reader:
 		g := wBytesReaderG[r]
 		if g == nil || g.done {
@@ -533,6 +570,10 @@ func mCmdWait(c *exec.Cmd) error {
 		return errors.New("exec: not started")
 	}
 	<-g.p.dead
+	// exec.Cmd.Wait closes the parent's ends of StdoutPipe/StderrPipe once the command has exited ("it is thus incorrect
+	// to call Wait before all reads from the pipe have completed"): what is still unread is lost
+	g.p.stdout.closeRead()
+	g.p.stderr.closeRead()
 	if g.p.exitCode != 0 {
 		return errors.New("exit status / signal: killed")
 	}
